@@ -26,7 +26,10 @@ ASSUMPTIONS = [
     "A-update: the update it returns does not contain 'status' / 'start_clock' / 'end_clock' keys of any task, does not create the entry of "
     'ANOTHER task and does not replace the entry of ANOTHER task by something that is not a dictionary (its OWN entry may be anything: a dictionary, '
     'a read-only mapping, a number)',
-    'A-thread-start: threading.Thread.start() does not fail (no exhaustion of threads: C03 does not quantify over resource faults)',
+    'A-thread-start: threading.Thread.start() does not fail (no exhaustion of threads: C03 does not quantify over resource faults); A-depth: dependency chains are '
+    'shorter than the recursion limit of the interpreter (DepGraph.topological_sort is recursive: a chain of ~1500 tasks raises RecursionError before anything runs)',
+    'A-update-commute: the updates of tasks that may run concurrently commute under Env.apply (disjoint keys, or sections that merge): two tasks writing one top-level '
+    "key with different shapes ({'shared': 5} / {'shared': {'x': 1}}) make Env.apply raise for whichever comes second, i.e. a status that depends on the schedule",
     'A-unique-names: distinct tasks of a scheduled graph have distinct names (check_unique_task_names, C15)',
     'A-toposort: DepGraph.topological_sort returns every node once, dependencies first, or raises DepGraphError (real body: bounded part of C16); '
     'Scheduler.__init__ hands over hard_graph <= full_graph over the same nodes',
@@ -236,6 +239,11 @@ def unit_worker(tier, pid):
             probe = 'raise'
         elif o == 'EXITS':
             probe = 'sysexit'
+            for pr in ('sysexit', 'baseexc'):
+                out = native.call('single', {'n': 2, 'edges': [], 'outcomes': [pr, 'done'], 'workers': 2}, timeout=60)
+                if out.get('problems') or out.get('hang'):
+                    return {'reproduced': True, 'observed': out.get('problems') or 'hang', 'expected': 'C01/C02/C03 oracles',
+                            'input_found': {'n': 2, 'edges': [], 'outcomes': [pr, 'done']}, 'by': 'native single run'}
         elif o == 'NONE':
             probe = 'none'
         elif o == 'NOT_A_PAIR':
@@ -288,7 +296,7 @@ def unit_scheduler_init(tier, pid):
     for given in (True, False):
         w = sk.make_init_world()
         res = verify_function(w, sk.init_contract(given), setup=sk.init_setup(given), extra_check=sk.init_check)
-        out.append(prop.discharge(res, tier, pid, lambda m, r: {'note': 'see model text'}, replay_native([SWEEP_SMALL])))
+        out.append(prop.discharge(res, tier, pid, lambda m, r: {'note': 'see model text'}, replay_native([('scheduler_graphs', {}), SWEEP_SMALL])))
     return {'functions': out}
 
 
@@ -549,7 +557,7 @@ def rerun_args(tier, seed):
 
 SWEEP_BOUND = ('real Scheduler/QueueScheduling on all DAGs <= 3 tasks with hard/soft edges x outcomes {done, failed, raise, None, not a pair, '
                'bad status, update not a mapping, non-final status} x workers {1, 2}; all 1- and 2-task cases + a seeded sample of the 3-task cases in '
-               'the quick tier, every case in the thorough tier; cyclic graphs of 1-3 tasks; a second schedule() on the same backend; a task that schedules an inner graph on its own backend; an error raised by the master after the workers were started; hang watchdog 6 s; C01/C02/C03 oracles')
+               'the quick tier, every case in the thorough tier; cyclic graphs of 1-3 tasks; a second schedule() on the same backend; a task that schedules an inner graph on its own backend; an error raised by the master after the workers were started; an empty nested graph as a barrier between the hard and the soft graph; several schedulers built from the same graph objects; hang watchdog 6 s; C01/C02/C03 oracles')
 PARK_BOUND = ('graph A -> B (hard and soft) + independent C, 3 workers; the worker of A is parked (threading.settrace) before every executed line '
               'of WorkerThread.run after task.do(); one preemption per run; B must read A complete whenever it starts')
 RERUN_BOUND = ('two-run histories on all DAGs <= 3 tasks, first-run outcomes {done, failed}^n, between the runs each task keeps / loses its persisted '
